@@ -15,7 +15,10 @@ The three loops (samples, flow records, counter records) are instances of `loopN
 carries explicit fuel; `Res.fuel` is the model's image of unbounded work.
 
 The model describes the code after the `fix:` commits F5 (extended-router length validated),
-F6 (`DstPriority` stored), F14 (enterprise-specific samples skipped by their declared length).
+F6 (`DstPriority` stored), F14 (enterprise-specific samples skipped by their declared length) and F19:
+a sampled header the dissector rejects leaves its record out instead of failing the datagram (F19a; an
+empty header is not read at all), the flow sample keeps the 24-bit source id index (F19b), an
+extended-router record of a length other than 16 / 28 is skipped by its declared length (F19d).
 Core Lean only.
 -/
 namespace Vflow.Sflow
@@ -147,6 +150,7 @@ def FlowRecs.ofList (l : List (Option FlowRec)) : FlowRecs := l.foldl FlowRecs.p
 structure FlowSample where
   seqNo : Nat
   sourceID : Nat
+  sourceIDIdx : Nat
   samplingRate : Nat
   samplePool : Nat
   drops : Nat
@@ -220,19 +224,26 @@ deriving DecidableEq, Repr
 
 /-! ## flow sample -/
 
-/-- `SampledHeader.unmarshal` + `Packet.Decoder` -/
-def decodeSampledHeader (bs : Bytes) : Res (Pkt × Bytes) :=
+/-- `if len(sh.Header) > 0 { r.Read(sh.Header) }` (F19a repair): an empty buffer is not read — at the
+end of the datagram `bytes.Reader.Read` reports `io.EOF` even for it -/
+def readHdr (n : Nat) (bs : Bytes) : Option (Bytes × Bytes) :=
+  if n = 0 then some ([], bs) else rawRead n bs
+
+/-- `SampledHeader.unmarshal` + `Packet.Decoder` (after the F19a repair): the record is consumed (four
+words, header octets, XDR padding) before the dissector runs; a dissector *error* yields no packet
+(`none`: the record is left out of `Records`) and no error.  Read errors stay errors. -/
+def decodeSampledHeader (bs : Bytes) : Res (Option Pkt × Bytes) :=
   match readFields [4, 4, 4, 4] bs with
   | some ([proto, _frameLen, _stripped, hl], r) =>
     if hl > 1500 then .err .hdrLen else
-    match rawRead (hl + (4 - hl % 4) % 4) r with        -- make([]byte, HeaderLength+tmp); r.Read
+    match readHdr (hl + (4 - hl % 4) % 4) r with         -- make([]byte, HeaderLength+tmp); r.Read
     | none => .err .eof
     | some (buf, r') =>
       match slice? buf 0 hl with                          -- sh.Header[:sh.HeaderLength]
       | .ok hdr =>
         match dissect hdr proto with
-        | .ok p => .ok (p, r')
-        | .err e => .err e
+        | .ok p => .ok (some p, r')
+        | .err _ => .ok (none, r')                        -- return nil, nil
         | .panic => .panic
         | .fuel => .fuel
       | .err e => .err e
@@ -247,7 +258,8 @@ def decodeExtSwitch (bs : Bytes) : Res (ExtSwitch × Bytes) :=
   | _ => .err .eof
 
 /-- `ExtRouterData.unmarshal(r, l)` (after the F5 repair: only the two lengths of the
-specification are accepted, so `make([]byte, l-8)` is 8 or 20 octets and `buff[4:]` is in range) -/
+specification are accepted, so `make([]byte, l-8)` is 8 or 20 octets and `buff[4:]` is in range; since
+the F19d repair the record loop calls it with these two lengths only) -/
 def decodeExtRouter (l : Nat) (bs : Bytes) : Res (ExtRouter × Bytes) :=
   if l ≠ 16 ∧ l ≠ 28 then .err .rtrLen else
   match full (l - 8) bs with
@@ -277,23 +289,23 @@ def flowRecord (bs : Bytes) : Res (Option FlowRec × Bytes) :=
     match u32 r1 with
     | none => .err .eof
     | some (len, r2) =>
-      if fmt = 1 then (decodeSampledHeader r2).mapFst (fun p => some (.raw p))
+      if fmt = 1 then (decodeSampledHeader r2).mapFst (fun o => o.map FlowRec.raw)   -- if d != nil { Records["RawHeader"] = d }
       else if fmt = 1001 then (decodeExtSwitch r2).mapFst (fun s => some (.sw s))
-      else if fmt = 1002 then (decodeExtRouter len r2).mapFst (fun x => some (.rtr x))
+      else if fmt = 1002 then
+        if len ≠ 16 ∧ len ≠ 28 then .ok (none, r2.drop len)   -- F19d: r.Seek(int64(rTypeLength), 1); continue
+        else (decodeExtRouter len r2).mapFst (fun x => some (.rtr x))
       else .ok (none, r2.drop len)                        -- r.Seek(int64(rTypeLength), 1)
 
-/-- `decodeFlowSample` -/
+/-- `decodeFlowSample` (after the F19b repair: the three octets after the source id type are read into
+`SourceIDIdx`, as `decodeFlowCounter` does) -/
 def decodeFlowSample (bs : Bytes) : Res (FlowSample × Bytes) :=
-  match readFields [4, 1] bs with
-  | some ([seq, sid], r0) =>
-    match readFields [4, 4, 4, 4, 4, 4] (r0.drop 3) with   -- r.Seek(3, 1)
-    | some ([rate, pool, drops, inp, out, n], r1) =>
-      match loopN flowRecord (r1.length + 1) n r1 with
-      | .ok (items, r2) => .ok (⟨seq, sid, rate, pool, drops, inp, out, n, FlowRecs.ofList items⟩, r2)
-      | .err e => .err e
-      | .panic => .panic
-      | .fuel => .fuel
-    | _ => .err .eof
+  match readFields [4, 1, 3, 4, 4, 4, 4, 4, 4] bs with
+  | some ([seq, sid, idx, rate, pool, drops, inp, out, n], r1) =>
+    match loopN flowRecord (r1.length + 1) n r1 with
+    | .ok (items, r2) => .ok (⟨seq, sid, idx, rate, pool, drops, inp, out, n, FlowRecs.ofList items⟩, r2)
+    | .err e => .err e
+    | .panic => .panic
+    | .fuel => .fuel
   | _ => .err .eof
 
 /-! ## counter sample -/
